@@ -15,6 +15,37 @@ import (
 
 func TestMain(m *testing.M) { ev.Main(m, "C01", "exploration") }
 
+// order probes (see ev.ProbeOrders): every decode entry point of every space, in generated orders, each order in
+// a fresh process, so that the lazily built tables are first touched by a different function each time
+func init() {
+	for i := range sp.Spaces {
+		name := sp.Spaces[i].Name
+		for _, e := range append(append([]string(nil), entries8...), entries16...) {
+			e := e
+			bits := 16
+			for _, x := range entries8 {
+				if x == e {
+					bits = 8
+				}
+			}
+			if (e == "From8Bit" || e == "From16Bit") && sp.Spaces[i].From8 == nil {
+				continue
+			}
+			ev.RegisterProbe(name+"."+e, func() string {
+				for _, code := range []int{0, 1, 7, 85, 200, 255, 12345, 65534, 65535} {
+					if code >= 1<<bits {
+						continue
+					}
+					if k, w := check(Case{name, e, bits, code}); k != "" {
+						return w
+					}
+				}
+				return ""
+			})
+		}
+	}
+}
+
 const tol = 3e-7
 
 // Case is one (space, entry point, code) evaluation.
@@ -77,8 +108,10 @@ func eval(a *sp.API, c Case) (vals [3]float64, lin16 bool, ok bool) {
 			return [3]float64{math.NaN(), math.NaN(), math.NaN()}, false, true
 		}
 		vals = [3]float64{float64(rgb.R), float64(rgb.G), float64(rgb.B)}
-	case "ColorFromEncodedColor/NRGBA", "ColorFromEncodedColor/RGBA", "ColorFromEncodedColor/NRGBA64", "ColorFromEncodedColor/RGBA64",
-		"LineariseColor/NRGBA", "LineariseColor/RGBA", "LineariseColor/NRGBA64", "LineariseColor/RGBA64":
+	default:
+		if !strings.HasPrefix(c.Entry, "ColorFromEncodedColor/") && !strings.HasPrefix(c.Entry, "LineariseColor/") {
+			return vals, false, false
+		}
 		var col color.Color
 		is16 := strings.HasSuffix(c.Entry, "64")
 		switch {
@@ -90,6 +123,14 @@ func eval(a *sp.API, c Case) (vals [3]float64, lin16 bool, ok bool) {
 			col = color.NRGBA64{R: uint16(k[0]), G: uint16(k[1]), B: uint16(k[2]), A: 65535}
 		case strings.HasSuffix(c.Entry, "/RGBA64"):
 			col = color.RGBA64{R: uint16(k[0]), G: uint16(k[1]), B: uint16(k[2]), A: 65535}
+		case strings.HasSuffix(c.Entry, "/Gray16-64"):
+			k = [3]int{k[0], k[0], k[0]}
+			col = color.Gray16{Y: uint16(k[0])}
+		case strings.HasSuffix(c.Entry, "/Gray"):
+			k = [3]int{k[0], k[0], k[0]}
+			col = color.Gray{Y: uint8(k[0])}
+		case strings.HasSuffix(c.Entry, "/opaque-custom-64"):
+			col = customColor{uint32(k[0]), uint32(k[1]), uint32(k[2])}
 		}
 		if is16 != (c.Bits == 16) {
 			return vals, false, false
@@ -106,8 +147,6 @@ func eval(a *sp.API, c Case) (vals [3]float64, lin16 bool, ok bool) {
 			return [3]float64{math.NaN(), math.NaN(), math.NaN()}, false, true
 		}
 		vals = [3]float64{float64(rgb.R), float64(rgb.G), float64(rgb.B)}
-	default:
-		return vals, false, false
 	}
 	return vals, false, true
 }
@@ -128,6 +167,9 @@ func check(c Case) (kind, what string) {
 	}
 	max := float64(int(1)<<c.Bits - 1)
 	k := codes(c)
+	if strings.Contains(c.Entry, "/Gray") {
+		k = [3]int{k[0], k[0], k[0]}
+	}
 	for i := 0; i < 3; i++ {
 		want := ref.EOTF(a.Ref, float64(k[i])/max)
 		got := vals[i]
@@ -151,11 +193,19 @@ func check(c Case) (kind, what string) {
 	return "", ""
 }
 
-var entries8 = []string{"From8Bit", "ColorFromNRGBA", "ColorFromRGBA", "ColorFromEncodedColor/NRGBA", "ColorFromEncodedColor/RGBA", "LineariseColor/NRGBA", "LineariseColor/RGBA"}
-var entries16 = []string{"From16Bit", "ColorFromEncodedColor/NRGBA64", "ColorFromEncodedColor/RGBA64", "LineariseColor/NRGBA64", "LineariseColor/RGBA64"}
+var entries8 = []string{"From8Bit", "ColorFromNRGBA", "ColorFromRGBA", "ColorFromEncodedColor/NRGBA", "ColorFromEncodedColor/RGBA", "LineariseColor/NRGBA", "LineariseColor/RGBA", "ColorFromEncodedColor/Gray", "LineariseColor/Gray"}
+var entries16 = []string{"From16Bit", "ColorFromEncodedColor/NRGBA64", "ColorFromEncodedColor/RGBA64", "LineariseColor/NRGBA64", "LineariseColor/RGBA64", "ColorFromEncodedColor/Gray16-64", "LineariseColor/Gray16-64", "ColorFromEncodedColor/opaque-custom-64", "LineariseColor/opaque-custom-64"}
+
+// customColor is an opaque colour of a type the library cannot know
+type customColor struct{ r, g, b uint32 }
+
+func (c customColor) RGBA() (r, g, b, a uint32) { return c.r, c.g, c.b, 0xFFFF }
 
 func TestC01(t *testing.T) {
 	if ev.Replaying() != nil {
+		if ev.ReplayOrder(t) {
+			return
+		}
 		var c Case
 		if err := ev.ReplayCase(&c); err != nil {
 			t.Fatal(err)
@@ -176,6 +226,7 @@ func TestC01(t *testing.T) {
 	ev.Set("tolerance_abs", tol)
 	ev.Assume("the published EOTF constants transcribed in internal/ref (IEC 61966-2-1, Adobe RGB (1998) gamma 563/256, ROMM RGB Et=1/512) are correct")
 
+	ev.ProbeOrders(ev.Pick(8, 150))
 	// the first 16-bit call in the process takes the initialise-and-return path:
 	// make it at a seed-chosen code, per space, and check its value
 	for i := range sp.Spaces {
